@@ -67,6 +67,15 @@ def fmod(a, b):
 fmod._pyvc_prim = 'fmod'
 
 
+def cfix(p):
+    """floor(c * 2**p) for a fixed positive real constant c (abstract in proofs; the native
+    reading instantiates c = 2/3 so that the hint lemmas about cfix can be self-checked)"""
+    return (2 << p) // 3 if p >= 0 else 0
+
+
+cfix._pyvc_prim = 'cfix'
+
+
 def shr(x, n):
     """x >> n for n >= 0 (floor division by 2**n)."""
     return x >> n
@@ -627,3 +636,80 @@ def IV(s):
 
 def val_le(s, t):
     return not val_lt(t, s)
+
+
+# ----------------------------------------------------------------------------- real-order view (C14)
+# rval(x) is the exact real value of a finite canonical raw mpf.  In proofs it is an uninterpreted
+# function of (sign, man, exp); what is known about it is val_link (its sign follows the sign field)
+# and what the real-order contracts of the mpf operations say (contracts/realview.py).
+
+def rval(x):
+    return val(x)
+
+
+rval._pyvc_prim = 'rval'
+
+
+def val_link(x):
+    """definition of the value of a canonical finite number, as far as its sign goes"""
+    if x == fzero:
+        return rval(x) == 0
+    if finite_nz(x):
+        return rval(x) > 0 if x[0] == 0 else rval(x) < 0
+    return True
+
+
+def WFr(x):
+    """canonical, not nan, value linked"""
+    return WF(x) and x != fnan and val_link(x)
+
+
+def ext_le(x, y):
+    """x <= y for canonical non-nan extended reals"""
+    if x == fninf or y == finf:
+        return True
+    if x == finf or y == fninf:
+        return False
+    return rval(x) <= rval(y)
+
+
+def ext_lt(x, y):
+    if x == finf or y == fninf:
+        return False
+    if x == fninf or y == finf:
+        return True
+    return rval(x) < rval(y)
+
+
+def IVr(s):
+    """a valid raw interval in the real-order view"""
+    return WFr(s[0]) and WFr(s[1]) and ext_le(s[0], s[1])
+
+
+def in_iv(v, s):
+    """the real number v is a member of the raw interval s"""
+    if s[0] == finf or s[1] == fninf:
+        return False
+    return (s[0] == fninf or rval(s[0]) <= v) and (s[1] == finf or v <= rval(s[1]))
+
+
+def dir_ok(r, exact, prec, rnd):
+    """order reading of a correctly rounded finite result r of the exact real value `exact`:
+    exact when prec == 0 (libmpf convention), below / above for floor / ceiling"""
+    if prec == 0:
+        return r == exact
+    if rnd == 'f':
+        return r <= exact
+    if rnd == 'c':
+        return r >= exact
+    return True
+
+
+def r_fun(k, v):
+    """the real function number k (0 exp, 1 log, 2 sqrt, 3 atan) at the real v: uninterpreted in proofs
+    (only monotonicity is used, through lemma_r_fun_mono); floats natively"""
+    import math
+    return [math.exp, math.log, math.sqrt, math.atan][k](float(v))
+
+
+r_fun._pyvc_prim = 'r_fun'
